@@ -31,7 +31,7 @@ def shards(tier):
 def gates(c, tier):
     out = []
     for k in ("outcome:messages", "outcome:wait", "outcome:ProtocolError", "part:random", "part:operator", "part:bytesub", "part:truncate", "part:valid-into-history", "part:large-bytewise",
-              "part:nest", "part:custom-type-refuses", "part:long-non-ascii-diagnostic", "pending-output-before-input", "part:low-stack-headroom", "post-error-receive-refused", "post-error-send-refused", "response:notice-checked", "response:unbind-checked"):
+              "part:nest", "part:very-large-delivery", "part:custom-type-refuses", "part:long-non-ascii-diagnostic", "pending-output-before-input", "part:low-stack-headroom", "post-error-receive-refused", "post-error-send-refused", "response:notice-checked", "response:unbind-checked"):
         if c.get(k, 0) == 0:
             out.append(f"never observed: {k}")
     cells = [k for k in c if k.startswith("cell:")]
@@ -302,6 +302,14 @@ def _run_shard(ctx: Ctx, acc: Acc):
         for cut in range(len(data)):
             full = data[:cut] + nxt
             do("truncate", role, r.choice(S.HISTORIES), full, C.g_chunking(r, len(full), [cut]))
+    # (i) very large deliveries: a 17 MiB and a 33 MiB entry, complete and cut short, in two pieces
+    if ctx.shard in (0, 1):
+        size = (17 if ctx.shard == 0 else 33) * 1024 * 1024
+        big = rfc4511.encode(("SearchResultEntry", 1, ("cn=big", (("jpegPhoto", (b"\x00" * size,)),)), ()))
+        for data in (big, big[:-7]):
+            do("very-large-delivery", "client", "opened-ops", data, [len(data) // 2])
+        big = rfc4511.encode(("ExtendedRequest", 77, ("1.2.3", b"\x01" * size), ()))
+        do("very-large-delivery", "server", "opened-ops", big[:-3], [9, len(big) // 2])
     # (g) a registered custom control type that refuses a value (the way library types do, or with ProtocolError), in the
     # first / a later PDU of a delivery
     for j, exc_name in enumerate(["ValueError", "NotImplementedError", "ProtocolError", "RecursionError"]):
